@@ -48,12 +48,40 @@ class Contract:
 _dir_re = re.compile(r"^(fn|trait|impl|items|requires|ensures|decreases|ret|loop|before|after|inline|attr|body|backed_by|open)\b(.*)$")
 
 
-def parse_overlay(path):
+_slice_open = re.compile(r"^\s*@\[([A-Z0-9, ]+)\]\{\s*$")
+_slice_line = re.compile(r"^(\s*)@\[([A-Z0-9, ]+)\] ?(.*)$")
+
+
+def parse_overlay(path, prop=None):
+    """prop: the property whose check is being generated.  Overlay lines `@[C05,C06] text` and regions `@[C05]{` .. `@}`
+    belong to the named properties only (property-sliced contracts: a function shared by several properties carries
+    each property's clauses and proof steps separately, so that a failed obligation is attributed to the right one);
+    with prop=None everything is included."""
     out = {}
     cur = None
     field = None
     with open(path) as f:
-        lines = f.read().split("\n")
+        raw = f.read().split("\n")
+    lines, region = [], None
+    for line in raw:
+        m = _slice_open.match(line)
+        if m:
+            region = {x.strip() for x in m.group(1).split(",")}
+            lines.append("")
+            continue
+        if region is not None and line.strip() == "@}":
+            region = None
+            lines.append("")
+            continue
+        if region is not None and prop is not None and prop not in region:
+            lines.append("")
+            continue
+        m = _slice_line.match(line)
+        if m:
+            tags = {x.strip() for x in m.group(2).split(",")}
+            lines.append(m.group(1) + m.group(3) if (prop is None or prop in tags) else "")
+            continue
+        lines.append(line)
     for ln, line in enumerate(lines, 1):
         if line.startswith("//") or (not line.strip() and field is None):
             continue
@@ -775,14 +803,15 @@ def _kept_attrs(it):
 
 
 class Extraction:
-    def __init__(self, repo, cfg_path=None):
+    def __init__(self, repo, cfg_path=None, prop=None):
         self.repo = repo
+        self.prop = prop
         self.cfg = json.load(open(cfg_path or os.path.join(VERIF, "contracts", "extract.json")))
         self.counts = {}
         self.contracts = {}
         for f in sorted(os.listdir(os.path.join(VERIF, "contracts"))):
             if f.endswith(".vc"):
-                self.contracts.update(parse_overlay(os.path.join(VERIF, "contracts", f)))
+                self.contracts.update(parse_overlay(os.path.join(VERIF, "contracts", f), prop))
         self.functions = {}  # key -> dict(text, src_sha, file, type, name, has_contract)
         self.types = []  # [(file, text)]
         self.order = []  # output order of chunks: ("type"/"const"/"fn"/"impl_open"/"impl_close", payload)
